@@ -9,7 +9,7 @@ never re-uses a request id; `Reachable` = no restriction.
 Property sentence → theorems
 
 * "the connection protection it took is released" / Protect–Unprotect alternate per (peer, tag):
-  `protect_balanced_partial` (fresh ids), `protect_balanced_counterexample` (a re-used live id: two
+  `protect_balanced_partial` (no id that is live for the peer is re-used), `protect_balanced_counterexample` (a re-used live id: two
   Protects in a row — known finding `dup-live-id`).
 * "afterwards the responder holds no state for it … and the peer's reported request states no longer
   list it": `retired_means_released` — in every reachable state a request that is not in the table
@@ -34,8 +34,13 @@ open GS.RespLife
 /-- Protect (= true) / Unprotect (= false) calls of the connection manager for `(p, tag id)`. -/
 def protectLog (s : State) (p : Peer) (id : Id) : List Bool := klog s.events (p, id)
 
-/-- calls alternate, starting with Protect -/
-def Alternating (l : List Bool) : Prop := l = [] ∨ l = [true] ∨ l = [true, false]
+/-- the calls alternate, starting with Protect: the log is `(+ -)* (+)?` (`alt` runs the two-state
+    automaton; ids may be re-used after retirement, so a key can be protected many times) -/
+def Alternating (l : List Bool) : Prop := alt l ≠ none
+
+example : alt [true, false, true] = some true := rfl     -- protected, released, protected again
+example : alt [true, true] = none := rfl                  -- two Protects in a row: not alternating
+example : alt [false] = none := rfl                       -- starts with Unprotect: not alternating
 
 theorem klog_filter (l : List Event) (k : Peer × Id) : klog (l.filter isProtEv) k = klog l k := by
   unfold klog
@@ -45,15 +50,19 @@ theorem klog_filter (l : List Event) (k : Peer × Id) : klog (l.filter isProtEv)
   intro e _
   cases e <;> simp [evKey, isProtEv]
 
-/-- **C05.protect_balanced** (partial: request ids are never re-used).  In every reachable state the
-    Protect/Unprotect calls for each (peer, tag) alternate starting with Protect — with fresh ids the
-    log is `[]`, `[+]` or `[+,-]` — and the tag is protected exactly when the last call was Protect. -/
+/-- **C05.protect_balanced** (partial: no peer sends a `new` request for an id that is live for it —
+    the complement of finding `dup-live-id`; re-use after retirement is allowed).  In every reachable
+    state the Protect/Unprotect calls for each (peer, tag) alternate starting with Protect, and the tag
+    is protected exactly when the last call was Protect. -/
 theorem protect_balanced_partial {c : Cfg} {s : State} (h : ReachableFresh c s) (p : Peer) (id : Id) :
-    Alternating (protectLog s p id) ∧ ((p, id) ∈ s.prot ↔ protectLog s p id = [true]) := by
+    Alternating (protectLog s p id) ∧ ((p, id) ∈ s.prot ↔ alt (protectLog s p id) = some true) := by
   have hinv := (pinv_reachable h).shape (p, id)
   have e : klog (pi s).plog (p, id) = protectLog s p id := klog_filter s.events (p, id)
   rw [e] at hinv
-  exact hinv
+  refine ⟨by rw [Alternating, hinv]; simp, ?_⟩
+  rw [hinv]
+  show (p, id) ∈ s.prot ↔ some (s.prot.contains (p, id)) = some true
+  simp
 
 /-- the part of "fully retired" that is a state invariant: whatever is not in the table (and whose
     `newRequest` step is not parked on a reservation) holds no connection protection; `PeerState`
@@ -142,12 +151,15 @@ theorem fix_50602fc_regression :
 -- ------------------------------------------------------------------ non-vacuity
 /-- the hypotheses of `protect_balanced_partial` are met by a non-trivial state: a fresh run that
     registers and retires a request has log `[+,-]` -/
+example : ∃ s, ReachableFresh {} s ∧ protectLog s 0 0 = [true, false, true] :=
+  ⟨run (init {}) [.recv 0 (.new 0 (cfgA 1)), .mgr, .recv 0 (.cancel 0), .mgr, .recv 0 (.new 0 (cfgA 1)), .mgr],
+   reachableFresh_run ReachableFresh.init _ (by decide), by decide⟩
+
 example : ∃ s, ReachableFresh {} s ∧ protectLog s 0 0 = [true, false] := by
   refine ⟨run (init {}) [.recv 0 (.new 0 (cfgA 1)), .mgr, .recv 0 (.cancel 0), .mgr], ?_, by decide⟩
   refine ReachableFresh.step (a := .mgr) (ReachableFresh.step (a := .recv 0 (.cancel 0))
     (ReachableFresh.step (a := .mgr) (ReachableFresh.step (a := .recv 0 (.new 0 (cfgA 1)))
       ReachableFresh.init ?_ rfl) trivial rfl) trivial rfl) trivial rfl
-  show 0 ∉ (init {}).seenIds
-  simp [init]
+  exact ⟨by simp [keys, init], by simp [newIds, init], by simp [parkNew, init]⟩
 
 end GS.C05
